@@ -210,6 +210,21 @@ fn dc_check(case: &Case) -> Verdict {
     Verdict::pass(true, vec![name.to_string()])
 }
 
+/// fz_single: linear view, N, parameter, a, b (dyadic in the f64 leg), the stream cut into x and y of equal length
+pub fn fuzz_decode(u: &mut arbitrary::Unstructured) -> Option<(String, Case)> {
+    let i = u.int_in_range(0..=LINEAR.len() - 1).ok()?;
+    let lin = LINEAR[i];
+    let n = lin.min_n + u.int_in_range(0..=19usize).ok()?;
+    let p = u.int_in_range(0..=47usize).ok()?;
+    let exact = u.int_in_range(0..=1u8).ok()? == 0;
+    let (an, bn, den) = (u.int_in_range(-24..=24i64).ok()?, u.int_in_range(-24..=24i64).ok()?, 1 + u.int_in_range(0..=7i64).ok()?);
+    let mut xs = crate::fuzzdec::stream(u, false, 200);
+    let ys = xs.split_off(xs.len() / 2);
+    xs.truncate(ys.len());
+    let d = if exact { den } else { 8 };
+    Some((format!("C10/{}/superposition/{}", lin.name, if exact { "Q" } else { "f64" }), Case { spec: Some((lin.mk)(n, p)), xs, ys, a: Rat(an, d), b: Rat(bn, d), ints: vec![i as i64], ..Default::default() }))
+}
+
 pub fn clauses() -> Vec<Clause> {
     let mut v = vec![];
     let g = "N from the view's minimum to 20 (thorough 64) with boundary bias, gamma grid for LaguerreFilter, M in 1..6 for RoofingFilter, Ema::with_alpha with weight alpha/(N+1) = j/8 (j = 1..15), Alma::new_custom over sigma in {0.5..12} x offset in {0..1}; two grammar streams x, y of 3N+16 values on the 1/8 grid, y = -x on a generated segment (so the combined stream and the filter state pass through exactly 0), a, b rational incl. 0 and negatives; three instances fed x, y and a x + b y.";
